@@ -1350,7 +1350,9 @@ func checkFreshPushedElement(r *Reporter, p *Prog, pkg, typ, method string) {
 	info := p.Pkg(pkg).TypesInfo
 	pf := newFuncCFG(p, info, fd.Body, key)
 	nPush, reused := 0, ""
-	for _, c := range pf.Calls(func(c *ast.CallExpr) bool { return qualifiedCallee(info, c) == "container/heap.Push" && len(c.Args) == 2 }) {
+	for _, c := range pf.Calls(func(c *ast.CallExpr) bool {
+		return qualifiedCallee(info, c) == "container/heap.Push" && len(c.Args) == 2
+	}) {
 		cpt, found := pf.PointOf(c)
 		if !found {
 			continue
